@@ -9,7 +9,9 @@ THEOREMS = ["Mpir.Sieve.sieve_index_maps", "Mpir.Sieve.gmp_primesieve_spec", "Mp
             "Mpir.Numth.swing_exponent", "Mpir.Numth.swing_prime_ranges", "Mpir.Numth.swing_products_fit", "Mpir.Numth.multiswing_spec",
             "Mpir.Numth.oddfac_1_spec", "Mpir.Numth.fac_ui_spec", "Mpir.Numth.two_fac_ui_spec",
             "Mpir.Numth.kummer_borrow_chain", "Mpir.Numth.goetgheluck_prime_ranges", "Mpir.Numth.goetgheluck_bin_uiui_spec",
-            "Mpir.Numth.bin_uiui_goetgheluck_spec"]
+            "Mpir.Numth.bin_uiui_goetgheluck_spec", "Mpir.Numth.primorial_ui_spec",
+            "Mpir.Sieve.npc_residue_invariant", "Mpir.Sieve.npc_small_path_spec", "Mpir.Sieve.npc_candidate_spec",
+            "Mpir.Sieve.nextprime_spec_given_exact_tests"]
 TRUSTED = ["hand-written limb-level model lean/Mpir/Model/Sieve.lean of primesieve.c (tied by the ops gmp_primesieve / first_block_primesieve / "
            "block_resieve: whole bit array and count compared; the two static functions are reached by compiling the tree's primesieve.c "
            "into harness/ops_sieve.c under other names, and that copy is compared with the library object on every gmp_primesieve op)"]
